@@ -181,10 +181,17 @@ def main():
         cnt[0] += 1
         return cls(filename=os.path.join(tmp, "f%d.json" % cnt[0]))
 
+    import random as _random
+    order_rng = _random.Random(spec["order_seed"]) if spec.get("order_seed") is not None else None
+
+
     def feed(name):
         """process a value through validators and collections (warm-up)"""
         v = pool[name]()
-        for val in (validators.require_string_key, validators.json_format_validator, validators.no_dot_in_key, J.json_attr_dict_validator):
+        vals = [validators.require_string_key, validators.json_format_validator, validators.no_dot_in_key, J.json_attr_dict_validator]
+        if order_rng is not None:
+            order_rng.shuffle(vals)
+        for val in vals:
             outcome(lambda: val(v))
         outcome(lambda: fresh(J.JSONDict).__setitem__("k", v))
         outcome(lambda: fresh(J.JSONAttrDict).__setitem__("k", v))
@@ -197,48 +204,55 @@ def main():
             import gc
             gc.collect()      # the class is dead now; its address is free for the next one
 
+    class _Ordered(dict):
+        """probe name -> thunk; evaluated in canonical order, or - when the run has an order seed -
+        in a shuffled order: the outcome of a probe must not depend on which probes (through which
+        validator / resolver) came before it"""
+
     def probes(name):
-        out = {}
+        todo = []
         mk = pool[name]
-        out["require_string_key"] = outcome(lambda: validators.require_string_key(mk()))
-        out["json_format"] = outcome(lambda: validators.json_format_validator(mk()))
-        out["no_dot"] = outcome(lambda: validators.no_dot_in_key(mk()))
-        out["json_attr"] = outcome(lambda: J.json_attr_dict_validator(mk()))
-        out["dict_base"] = outcome(lambda: J.JSONDict.is_base_type(mk()))
-        out["list_base"] = outcome(lambda: J.JSONList.is_base_type(mk()))
+        todo.append(("require_string_key", lambda: validators.require_string_key(mk())))
+        todo.append(("json_format", lambda: validators.json_format_validator(mk())))
+        todo.append(("no_dot", lambda: validators.no_dot_in_key(mk())))
+        todo.append(("json_attr", lambda: J.json_attr_dict_validator(mk())))
+        todo.append(("dict_base", lambda: J.JSONDict.is_base_type(mk())))
+        todo.append(("list_base", lambda: J.JSONList.is_base_type(mk())))
 
         def setitem(cls):
             x = fresh(cls)
             x["k"] = mk()
             return [describe(x()), type(x._data["k"]).__name__]
-        out["dict_setitem"] = outcome(lambda: setitem(J.JSONDict))
-        out["attr_setitem"] = outcome(lambda: setitem(J.JSONAttrDict))
+        todo.append(("dict_setitem", lambda: setitem(J.JSONDict)))
+        todo.append(("attr_setitem", lambda: setitem(J.JSONAttrDict)))
 
         def append():
             x = fresh(J.JSONList)
             x.append(mk())
             return [describe(x()), type(x._data[0]).__name__]
-        out["list_append"] = outcome(append)
+        todo.append(("list_append", append))
 
         def update():
             x = fresh(J.JSONDict)
             x["u"] = [0]
             x.update({"u": mk()})
             return describe(x())
-        out["dict_update"] = outcome(update)
+        todo.append(("dict_update", update))
 
         def lreset():
             x = fresh(J.JSONList)
             x.reset(mk())
             return describe(x())
-        out["list_reset"] = outcome(lreset)
+        todo.append(("list_reset", lreset))
 
         def dreset():
             x = fresh(J.JSONDict)
             x.reset(mk())
             return describe(x())
-        out["dict_reset"] = outcome(dreset)
-        return out
+        todo.append(("dict_reset", dreset))
+        if order_rng is not None:
+            order_rng.shuffle(todo)
+        return {k: outcome(f) for k, f in todo}
 
     for name in spec["history"]:
         if name in pool:
